@@ -888,24 +888,49 @@ def _cycle_repair(itree: ast.Module) -> dict:
     return dict(ancestry_check=check, parents_extended=extended, parents_roundtrip=roundtrip, detail=info)
 
 
+ITER_ADAPTERS = ('reversed', 'sorted', 'list', 'tuple', 'iter', 'enumerate')
+
+
+def _strip_adapters(it: ast.expr, target: ast.expr) -> tuple[ast.expr, ast.expr]:
+    """`for t in reversed(x)` / sorted / list / tuple / iter hand out the elements of x, `for i, t in enumerate(x)` pairs them
+    with a number: the iterable and the target that receives its elements."""
+    while isinstance(it, ast.Call) and isinstance(it.func, ast.Name) and len(it.args) == 1 and not it.keywords and it.func.id in ITER_ADAPTERS:
+        if it.func.id == 'enumerate':
+            if not (isinstance(target, ast.Tuple) and len(target.elts) == 2):
+                break
+            target = target.elts[1]
+        it = it.args[0]
+    return it, target
+
+
 def _template_census(fn: ast.FunctionDef) -> dict:
     """Every use of an object that belongs to the template (file.vmf...) inside collapse_one."""
     tmpl_names = {'file'}
     # loop variables bound from file.vmf.* or from a template object
     changed = True
     loops = [n for n in ast.walk(fn) if isinstance(n, ast.For)]
+    aliases = _single_assigned_locals(fn)        # `template = file.vmf`: the local stands for the template object too
+    def _chain_root(e: ast.AST) -> str | None:
+        while isinstance(e, (ast.Attribute, ast.Subscript)):
+            e = e.value
+        return e.id if isinstance(e, ast.Name) else None
     while changed:
         changed = False
+        for nm_, val_ in aliases.items():
+            if nm_ not in tmpl_names and isinstance(val_, (ast.Attribute, ast.Subscript)) and _chain_root(val_) in tmpl_names:
+                tmpl_names.add(nm_)
+                changed = True
         for lp in loops:
-            src = ast.unparse(lp.iter)
-            roots = {n.id for n in ast.walk(lp.iter) if isinstance(n, ast.Name)}
+            lp_iter, lp_target = _strip_adapters(lp.iter, lp.target)
+            src = ast.unparse(lp_iter)
+            roots = {n.id for n in ast.walk(lp_iter) if isinstance(n, ast.Name)}
             if roots & tmpl_names:
-                if isinstance(lp.target, ast.Name):
-                    new = {lp.target.id}
-                elif isinstance(lp.target, ast.Tuple) and src.startswith('zip('):
+                if isinstance(lp_target, ast.Name):
+                    new = {lp_target.id}
+                elif isinstance(lp_target, ast.Tuple) and src.startswith('zip('):
                     # zip(old_ent.solids, new_ent.solids): only positions whose argument is rooted in the template
                     new = set()
-                    for t, a in zip(lp.target.elts, lp.iter.args):
+                    for t, a in zip(lp_target.elts, lp_iter.args):
                         if {n.id for n in ast.walk(a) if isinstance(n, ast.Name)} & tmpl_names and isinstance(t, ast.Name):
                             new.add(t.id)
                 else:
@@ -1867,6 +1892,10 @@ class _Skel:
         self.n = 0
         self.global_tests: list[str] = []
         self.tainted: list[str] = []
+        # round 5: what is evaluated at every numbered site (for the per-statement kinds of SM/C17Kinds.v); the sites of an
+        # inlined callee are kept apart with the call expression they belong to
+        self.site_nodes: dict[int, list[ast.AST]] = {}
+        self.callee_sites: dict[int, ast.Call] = {}
 
     def calls(self, *nodes: ast.AST | None) -> list[str]:
         """`KCall` for every call of a state function inside the expressions [nodes], in source order; a state function
@@ -1894,6 +1923,8 @@ class _Skel:
                 sub.n = self.n
                 sk = sub.block(_body(fn))
                 self.n = sub.n
+                for i_ in list(sub.site_nodes) + list(sub.callee_sites):
+                    self.callee_sites[i_] = x
                 self.global_tests += [t for t in sub.global_tests if t not in self.global_tests]
                 self.tainted += [t for t in sub.tainted if t not in self.tainted]
                 out.append((x.lineno, x.col_offset, f'(KCall {sk})'))
@@ -1902,8 +1933,9 @@ class _Skel:
                     raise TranslateError(f'instancing.py:{x.lineno}: `{x.id}` (touches module-level state) used as a value')
         return [c for _l, _c, c in sorted(out)]
 
-    def fresh(self) -> int:
+    def fresh(self, *nodes: ast.AST | None) -> int:
         self.n += 1
+        self.site_nodes[self.n] = [n for n in nodes if n is not None]
         return self.n
 
     def reads(self, node: ast.AST) -> bool:
@@ -1929,10 +1961,10 @@ class _Skel:
 
     def taint(self, st: ast.AST) -> str:
         self.tainted.append(f'line {getattr(st, "lineno", "?")}: {ast.unparse(st)[:70]}')
-        return f'(KTainted {self.fresh()})'
+        return f'(KTainted {self.fresh(st)})'
 
-    def eff(self) -> str:
-        return f'(KEff {self.fresh()})'
+    def eff(self, *nodes: ast.AST | None) -> str:
+        return f'(KEff {self.fresh(*nodes)})'
 
     def block(self, body: list[ast.stmt]) -> str:
         return self.seq([self.stmt(st) for st in body])
@@ -1952,7 +1984,7 @@ class _Skel:
         if all(self.inert(a) or isinstance(a, ast.JoinedStr) and all(self.inert(v.value) for v in a.values if isinstance(v, ast.FormattedValue))
                or isinstance(a, ast.Attribute) and self.inert(a.value) for a in args):
             return []
-        return self.calls(*args) + [self.eff()]
+        return self.calls(*args) + [self.eff(*args)]
 
     def stmt(self, st: ast.stmt) -> str:
         if isinstance(st, ast.Expr):
@@ -1962,7 +1994,7 @@ class _Skel:
             if self.is_log_call(v):
                 return self.seq(self.args_effect(v) + ['KLog'])          # what is logged may mention the global state
             if self.is_self_update(v):
-                return self.seq(self.args_effect(v) + [f'(KUpd {self.fresh()})'])
+                return self.seq(self.args_effect(v) + [f'(KUpd {self.fresh(v)})'])
             if self.reads(st):
                 return self.taint(st)
             cs = self.calls(v)
@@ -1971,7 +2003,7 @@ class _Skel:
                     or isinstance(v.func, ast.Attribute) and v.func.attr in self.state_methods and self.inert(v.func.value)) and \
                     all(self.inert(a) for a in list(v.args) + [k.value for k in v.keywords]):
                 return cs[0]                  # `helper(a, b)` as a statement, inert arguments: nothing but the call
-            return self.seq(cs + [self.eff()])
+            return self.seq(cs + [self.eff(v)])
         if isinstance(st, (ast.Pass, ast.Global, ast.Nonlocal, ast.Import, ast.ImportFrom)):
             return 'KNil'
         if isinstance(st, (ast.FunctionDef, ast.AsyncFunctionDef, ast.ClassDef)):
@@ -1988,36 +2020,36 @@ class _Skel:
                 roots.append(r.id if isinstance(r, ast.Name) else None)
             if roots and all(r in self.mut for r in roots) and all(isinstance(t, (ast.Subscript, ast.Name)) for t in tgs):
                 val = getattr(st, 'value', None)
-                pre = [] if val is None or self.inert(val) else [self.eff()]
-                return self.seq(pre + [f'(KUpd {self.fresh()})'])        # G[k] = v / del G[k] / G = ... (with `global`)
+                pre = [] if val is None or self.inert(val) else [self.eff(val)]
+                return self.seq(pre + [f'(KUpd {self.fresh(st)})'])        # G[k] = v / del G[k] / G = ... (with `global`)
             if isinstance(st, ast.AnnAssign) and st.value is None:
                 return 'KNil'
-            return self.taint(st) if self.reads(st) else self.seq(self.calls(st) + [self.eff()])
+            return self.taint(st) if self.reads(st) else self.seq(self.calls(st) + [self.eff(st)])
         if isinstance(st, ast.Assert):
-            return self.taint(st) if self.reads(st) else self.seq(self.calls(st) + [self.eff()])
+            return self.taint(st) if self.reads(st) else self.seq(self.calls(st) + [self.eff(st)])
         if type(st) in JUMPS:
             val = getattr(st, 'value', None) if isinstance(st, ast.Return) else getattr(st, 'exc', None) if isinstance(st, ast.Raise) else None
             pre = []
             if val is not None and self.reads(val):
                 pre = [self.taint(st)]
             elif val is not None and not self.inert(val):
-                pre = self.calls(val) + [self.eff()]
+                pre = self.calls(val) + [self.eff(val)]
             elif isinstance(st, ast.Return) and val is not None and not (isinstance(val, ast.Constant) and val.value is None):
-                pre = [self.eff()]          # a returned value is data handed to the caller: only a bare `return` is quiet
+                pre = [self.eff(val)]          # a returned value is data handed to the caller: only a bare `return` is quiet
             return self.seq(pre + [f'(KJump {JUMPS[type(st)]})'])
         if isinstance(st, ast.If):
             a, b = self.block(st.body), self.block(st.orelse)
             if self.reads(st.test):
                 self.global_tests.append(f'line {st.lineno}: {ast.unparse(st.test)[:70]}')
                 pre = [] if self.inert(st.test) else [self.taint(st.test)]
-                return self.seq(pre + [f'(KIf (TGlobal {self.fresh()}) {a} {b})'])
-            pre = [] if self.inert(st.test) else self.calls(st.test) + [self.eff()]
-            return self.seq(pre + [f'(KIf (TOther {self.fresh()}) {a} {b})'])
+                return self.seq(pre + [f'(KIf (TGlobal {self.fresh(st.test)}) {a} {b})'])
+            pre = [] if self.inert(st.test) else self.calls(st.test) + [self.eff(st.test)]
+            return self.seq(pre + [f'(KIf (TOther {self.fresh(st.test)}) {a} {b})'])
         if isinstance(st, ast.For):
             if st.orelse:
                 raise TranslateError(f'instancing.py:{st.lineno}: for/else in a function that reads module-level state')
-            head = [self.taint(st.iter)] if self.reads(st.iter) or self.reads(st.target) else self.calls(st.iter) + [self.eff()]
-            return self.seq(head + [f'(KLoop {self.fresh()} {self.block(st.body)})'])
+            head = [self.taint(st.iter)] if self.reads(st.iter) or self.reads(st.target) else self.calls(st.iter) + [self.eff(st.iter)]
+            return self.seq(head + [f'(KLoop {self.fresh(st.target, st.iter)} {self.block(st.body)})'])
         if isinstance(st, ast.Try):
             if st.finalbody:
                 raise TranslateError(f'instancing.py:{st.lineno}: try/finally in a function that reads module-level state')
@@ -2025,7 +2057,7 @@ class _Skel:
             for h in reversed(st.handlers):
                 if h.type is not None and self.reads(h.type):
                     raise TranslateError(f'instancing.py:{h.lineno}: except clause reads module-level state')
-                chain = f'(KIf (TOther {self.fresh()}) {self.block(h.body)} {chain})'
+                chain = f'(KIf (TOther {self.fresh(h.type)}) {self.block(h.body)} {chain})'
             return f'(KTry {self.block(st.body)} {chain} {self.block(st.orelse)})'
         raise TranslateError(f'instancing.py:{st.lineno}: statement {type(st).__name__} in a function that reads module-level state')
 
@@ -2042,6 +2074,7 @@ def _process_state(tree: ast.Module) -> dict:
         if isinstance(n, ast.ClassDef):
             funcs += [(f'{n.name}.{f.name}', f) for f in n.body if isinstance(f, ast.FunctionDef) and not _is_overload(f)]
     out, tests, tainted = [], [], []
+    sites_c1: tuple = ({}, {}, None)
     logger_misuse: list[str] = []
     # functions that touch the module-level state, directly or through a call of such a function (fixpoint)
     direct = {qn for qn, fn in funcs if any(isinstance(x, ast.Name) and x.id in mut for x in ast.walk(fn))}
@@ -2095,18 +2128,343 @@ def _process_state(tree: ast.Module) -> dict:
         K = _Skel(mut, loggers, state_funcs, state_methods, (qn if '.' not in qn else '.' + qn.split('.', 1)[1],))
         sk = K.block(_body(fn))
         out.append((qn, sk))
+        if qn == 'collapse_one':
+            sites_c1 = (dict(K.site_nodes), dict(K.callee_sites), fn)
         tests += [f'{qn} {t}' for t in K.global_tests]
         tainted += [f'{qn} {t}' for t in K.tainted]
     return {'module_level': ms['names'], 'class_level': ms['class_level'], 'functions': out, 'global_tests': tests, 'tainted': tainted,
-            'logger_misuse': logger_misuse, 'hidden_state': hidden_state, 'calls_inlined': sum(sk.count('(KCall ') for _q, sk in out)}
+            'logger_misuse': logger_misuse, 'hidden_state': hidden_state, 'calls_inlined': sum(sk.count('(KCall ') for _q, sk in out),
+            'sites_collapse_one': sites_c1}
+
+
+# ---------------------------------------------------------------------------------------------- statement kinds (round 5)
+SCALAR_TYPES = {'int', 'str', 'float', 'bool', 'None', 'bytes'}
+VALUE_METHODS = {'casefold', 'lower', 'upper', 'startswith', 'endswith', 'strip', 'lstrip', 'rstrip', 'split', 'rsplit', 'partition',
+                 'rpartition', 'format', 'join', 'encode', 'isdigit', 'find', 'replace', 'as_integer_ratio', 'is_integer'}
+
+
+def _ann_name(t: ast.expr | None) -> str | None:
+    if isinstance(t, ast.Name):
+        return t.id
+    if isinstance(t, ast.Constant) and isinstance(t.value, str) and t.value.isidentifier():
+        return t.value
+    if isinstance(t, ast.Constant) and t.value is None:
+        return 'None'
+    if isinstance(t, ast.Attribute):
+        return t.attr
+    return None
+
+
+def _ann_scalar(t: ast.expr | None) -> bool:
+    """The annotation denotes immutable scalars only: int / str / float / bool / None, Optional[..] or unions of those."""
+    if t is None:
+        return False
+    if _ann_name(t) in SCALAR_TYPES:
+        return True
+    if isinstance(t, ast.BinOp) and isinstance(t.op, ast.BitOr):
+        return _ann_scalar(t.left) and _ann_scalar(t.right)
+    if isinstance(t, ast.Subscript) and _ann_name(t.value) in ('Optional', 'Union'):
+        parts = t.slice.elts if isinstance(t.slice, ast.Tuple) else [t.slice]
+        return all(_ann_scalar(x) for x in parts)
+    return False
+
+
+def _ann_parts(t: ast.expr | None, heads: set[str]) -> list[ast.expr] | None:
+    if isinstance(t, ast.Subscript) and _ann_name(t.value) in heads:
+        return list(t.slice.elts) if isinstance(t.slice, ast.Tuple) else [t.slice]
+    return None
+
+
+def _statement_kinds(c1: ast.FunctionDef, site_nodes: dict[int, list[ast.AST]], callee_sites: dict[int, ast.Call],
+                     itree: ast.Module, vtree: ast.Module) -> dict:
+    """Every numbered site of the skeleton of collapse_one -> KdLocal / KdRead / KdCopy cls / KdOther (SM/C17Kinds.v), decided
+    from where the names bound to template objects occur in what the site evaluates.  Types come from the class-level
+    annotations of instancing.py / vmf.py; a name of unknown type is treated as a mutable template object."""
+    classes: dict[str, ast.ClassDef] = {}
+    for tree in (vtree, itree):
+        for n in tree.body:
+            if isinstance(n, ast.ClassDef):
+                classes[n.name] = n
+    def field_ann(cls: str, attr: str) -> ast.expr | None:
+        c = classes.get(cls)
+        if c is None:
+            return None
+        for n in c.body:
+            if isinstance(n, ast.AnnAssign) and isinstance(n.target, ast.Name) and n.target.id == attr:
+                return n.annotation
+        return None
+    file_arg = next((a for a in c1.args.args + c1.args.kwonlyargs if a.arg == 'file'), None)
+    if file_arg is None or _ann_name(file_arg.annotation) not in classes:
+        raise TranslateError('collapse_one: parameter `file` with a class annotation not found')
+    UNKNOWN = ast.Name(id='?unknown', ctx=ast.Load())
+    tenv: dict[str, ast.expr] = {'file': file_arg.annotation}
+    parents: dict[int, ast.AST] = {}
+    for n in ast.walk(c1):
+        for ch in ast.iter_child_nodes(n):
+            parents[id(ch)] = n
+    def root(e: ast.AST) -> str | None:
+        while isinstance(e, (ast.Attribute, ast.Subscript)):
+            e = e.value
+        return e.id if isinstance(e, ast.Name) else None
+    def typeof(e: ast.AST) -> ast.expr:
+        if isinstance(e, ast.Name):
+            return tenv.get(e.id, UNKNOWN)
+        if isinstance(e, ast.Attribute):
+            cls = _ann_name(typeof(e.value))
+            return (field_ann(cls, e.attr) if cls in classes else None) or UNKNOWN
+        if isinstance(e, ast.Subscript):
+            t = typeof(e.value)
+            d = _ann_parts(t, {'dict', 'Dict', 'Mapping', 'MutableMapping'})
+            if d is not None and len(d) == 2:
+                return d[1]
+            l = _ann_parts(t, {'list', 'List', 'Sequence'})
+            if l is not None and len(l) == 1 and not isinstance(e.slice, ast.Slice):
+                return l[0]
+        return UNKNOWN
+    def elem_type(t: ast.expr) -> ast.expr:
+        l = _ann_parts(t, {'list', 'List', 'Sequence', 'set', 'Set', 'frozenset', 'Iterable', 'Collection', 'AbstractSet'})
+        return l[0] if l is not None and len(l) == 1 else UNKNOWN
+    def is_chain(e: ast.AST) -> bool:
+        return isinstance(e, ast.Name) or isinstance(e, (ast.Attribute, ast.Subscript)) and is_chain(e.value)
+    kept: set[tuple[str, str, bool]] = set()
+    def bind(target: ast.expr, t: ast.expr, src: ast.expr | None, elem: bool) -> bool:
+        """target := a value of type t read from a template object; True when the environment grew."""
+        if isinstance(target, ast.Tuple):
+            parts = _ann_parts(t, {'tuple', 'Tuple'})
+            ch = False
+            for k, el in enumerate(target.elts):
+                ch |= bind(el, parts[k] if parts is not None and len(parts) == len(target.elts) else UNKNOWN, None, False)
+            return ch
+        if not isinstance(target, ast.Name):
+            return False                     # a store into something else: judged at the site
+        if _ann_scalar(t):
+            if elem and isinstance(src, ast.Attribute) and _ann_name(typeof(src.value)) in classes:
+                kept.add((_ann_name(typeof(src.value)), src.attr, True))
+            return False                     # an immutable value, not a template object
+        old = tenv.get(target.id)
+        tkey = lambda x: _ann_name(x) or ast.dump(x)
+        new = t if old is None or tkey(old) == tkey(t) else UNKNOWN
+        if old is None or tkey(old) != tkey(new):
+            tenv[target.id] = new
+            return True
+        return False
+    changed = True
+    while changed:
+        changed = False
+        for n in ast.walk(c1):
+            if isinstance(n, (ast.For, ast.comprehension)):
+                it = n.iter
+                it, tgt_ = _strip_adapters(it, n.target)
+                if it is not n.iter and is_chain(it) and root(it) in tenv:
+                    changed |= bind(tgt_, elem_type(typeof(it)), it, True)
+                    continue
+                it = n.iter
+                if isinstance(it, ast.Call) and isinstance(it.func, ast.Name) and it.func.id == 'zip' and isinstance(n.target, ast.Tuple) \
+                        and len(n.target.elts) == len(it.args) and not it.keywords:
+                    for t_, a_ in zip(n.target.elts, it.args):
+                        if is_chain(a_) and root(a_) in tenv:
+                            changed |= bind(t_, elem_type(typeof(a_)), a_, True)
+                elif is_chain(it) and root(it) in tenv:
+                    changed |= bind(n.target, elem_type(typeof(it)), it, True)
+                elif any(isinstance(x, ast.Name) and x.id in tenv for x in ast.walk(it)):
+                    # template objects reach the loop through something else (enumerate(..), sorted(..), a method ..):
+                    # every target name may be a template object, of unknown type
+                    for x in ast.walk(n.target):
+                        if isinstance(x, ast.Name):
+                            changed |= bind(x, UNKNOWN, None, False)
+            elif isinstance(n, ast.Assign) and is_chain(n.value) and root(n.value) in tenv:
+                for tg in n.targets:
+                    changed |= bind(tg, typeof(n.value), n.value, False)
+            elif isinstance(n, (ast.AnnAssign, ast.NamedExpr)) and n.value is not None and is_chain(n.value) and root(n.value) in tenv:
+                changed |= bind(n.target, typeof(n.value), n.value, False)
+    # a template name bound in any other way (argument re-bound, with-item, augmented assignment ...) is not tracked: fail closed
+    for n in ast.walk(c1):
+        if isinstance(n, ast.Name) and isinstance(n.ctx, (ast.Store, ast.Del)) and n.id in tenv:
+            par = parents.get(id(n))
+            while isinstance(par, ast.Tuple):
+                par = parents.get(id(par))
+            if not isinstance(par, (ast.For, ast.comprehension, ast.Assign, ast.AnnAssign, ast.NamedExpr)):
+                raise TranslateError(f'collapse_one line {n.lineno}: template name `{n.id}` bound by {type(par).__name__}')
+            if isinstance(par, (ast.Assign, ast.AnnAssign, ast.NamedExpr)) and not (is_chain(par.value) and root(par.value) in tenv):
+                tenv[n.id] = UNKNOWN          # also bound to something else: unknown type, still a template name
+    # functions of vmf.py that only read a parameter: `param.attr` loads of scalar fields, nothing else
+    def reads_only(call: ast.Call, arg: ast.expr) -> str | None:
+        """None when the callee only reads the parameter [arg] is passed for, else the reason."""
+        f = call.func
+        if not (isinstance(f, ast.Attribute) and isinstance(f.value, ast.Name) and f.value.id in classes):
+            return 'callee is not Class.method of vmf.py / instancing.py'
+        fn = next((m for m in classes[f.value.id].body if isinstance(m, ast.FunctionDef) and m.name == f.attr and not _is_overload(m)), None)
+        if fn is None:
+            return f'{f.value.id}.{f.attr} not found'
+        decos = {ast.unparse(d) for d in fn.decorator_list}
+        if not decos <= {'classmethod', 'staticmethod'} or not decos:
+            return f'{f.value.id}.{f.attr} is not a classmethod / staticmethod'
+        params = [a for a in fn.args.posonlyargs + fn.args.args][1 if 'classmethod' in decos else 0:]
+        if call.keywords or any(isinstance(a, ast.Starred) for a in call.args) or arg not in call.args or call.args.index(arg) >= len(params):
+            return 'argument passing form'
+        prm = params[call.args.index(arg)]
+        pcls = _ann_name(prm.annotation)
+        if pcls not in classes or pcls != _ann_name(typeof(arg)):
+            return f'parameter `{prm.arg}` is not annotated with the class of the argument'
+        fpar: dict[int, ast.AST] = {}
+        for n in ast.walk(fn):
+            for ch in ast.iter_child_nodes(n):
+                fpar[id(ch)] = n
+        for n in ast.walk(fn):
+            if isinstance(n, (ast.FunctionDef, ast.Lambda)) and n is not fn:
+                return 'nested function'
+            if isinstance(n, ast.Name) and n.id == prm.arg:
+                par = fpar.get(id(n))
+                if not (isinstance(n.ctx, ast.Load) and isinstance(par, ast.Attribute) and par.value is n and isinstance(par.ctx, ast.Load)):
+                    return f'`{prm.arg}` used as `{ast.unparse(par)[:40]}`'
+                if not _ann_scalar(field_ann(pcls, par.attr)):
+                    return f'`{prm.arg}.{par.attr}` is not a scalar field'
+                kept.add((pcls, par.attr, False))
+        return None
+    kinds: dict[int, str] = {}
+    why: dict[int, str] = {}
+    census = {'KdLocal': 0, 'KdRead': 0, 'KdCopy': 0, 'KdOther': 0}
+    def judge(node: ast.AST) -> tuple[list[str], list[str], int]:
+        """(reasons for KdOther, copied classes, number of template reads) of one evaluated node."""
+        bad: list[str] = []
+        copies: list[str] = []
+        reads = 0
+        for n in ast.walk(node):
+            if not (isinstance(n, ast.Name) and n.id in tenv):
+                continue
+            if not isinstance(n.ctx, ast.Load):
+                continue                      # the binding of a template local (judged through its value)
+            reads += 1
+            top: ast.AST = n
+            while True:
+                par = parents.get(id(top))
+                if isinstance(par, (ast.Attribute, ast.Subscript)) and par.value is top:
+                    if not isinstance(par.ctx, ast.Load):
+                        bad.append(f'line {n.lineno}: store / del through `{ast.unparse(par)[:50]}`')
+                        break
+                    if isinstance(parents.get(id(par)), ast.Call) and parents[id(par)].func is par:
+                        break                 # a method call on `top`
+                    top = par
+                else:
+                    break
+            par = parents.get(id(top))
+            if bad and bad[-1].startswith(f'line {n.lineno}: store'):
+                continue
+            gp = parents.get(id(par)) if par is not None else None
+            if isinstance(par, ast.Attribute) and par.value is top and isinstance(gp, ast.Call) and gp.func is par:
+                cls = _ann_name(typeof(top))
+                if par.attr == 'copy' and cls in classes:
+                    copies.append(cls)
+                elif par.attr in VALUE_METHODS and _ann_scalar(typeof(top)):
+                    pass
+                else:
+                    bad.append(f'line {n.lineno}: method `{par.attr}` called on the template object `{ast.unparse(top)[:40]}`')
+                continue
+            if isinstance(par, ast.AugAssign) and par.target is top:
+                bad.append(f'line {n.lineno}: augmented assignment to `{ast.unparse(top)[:40]}`')
+                continue
+            t = typeof(top)
+            if _ann_scalar(t):
+                if isinstance(top, ast.Attribute) and _ann_name(typeof(top.value)) in classes:
+                    kept.add((_ann_name(typeof(top.value)), top.attr, False))
+                continue                      # an immutable value: may be compared, kept, used as a key
+            # a mutable (or unknown) object of the template: only consumed
+            if isinstance(par, (ast.For, ast.comprehension)) and par.iter is top:
+                continue
+            if isinstance(par, ast.Call) and isinstance(par.func, ast.Name) and par.func.id == 'zip' and top in par.args \
+                    and isinstance(gp, (ast.For, ast.comprehension)) and gp.iter is par:
+                continue
+            if isinstance(par, ast.Call) and isinstance(par.func, ast.Name) and top in par.args and not par.keywords:
+                if par.func.id in ('len', 'bool', 'any', 'all', 'isinstance'):
+                    continue                  # a number / truth value
+                if par.func.id in ('enumerate', 'reversed', 'sorted', 'list', 'tuple', 'iter'):
+                    outer, up = par, gp
+                    while isinstance(up, ast.Call) and isinstance(up.func, ast.Name) and up.func.id in ('enumerate', 'reversed', 'sorted', 'list', 'tuple', 'iter') \
+                            and outer in up.args and not up.keywords:
+                        outer, up = up, parents.get(id(up))
+                    if isinstance(up, (ast.For, ast.comprehension)) and up.iter is outer:
+                        continue              # iterated over at once: the elements are bound to tracked template names
+            if isinstance(par, (ast.Compare, ast.BoolOp)) or isinstance(par, ast.UnaryOp) and isinstance(par.op, ast.Not) \
+                    or isinstance(par, (ast.If, ast.IfExp, ast.While)) and par.test is top:
+                continue
+            if isinstance(par, (ast.Assign, ast.AnnAssign, ast.NamedExpr)) and par.value is top:
+                tgs = par.targets if isinstance(par, ast.Assign) else [par.target]
+                flat = [x for tg in tgs for x in (tg.elts if isinstance(tg, ast.Tuple) else [tg])]
+                if all(isinstance(x, ast.Name) and (x.id in tenv or True) for x in flat) and all(isinstance(x, ast.Name) for x in flat):
+                    scal = _ann_parts(t, {'tuple', 'Tuple'})
+                    if all(x.id in tenv for x in flat if not (scal is not None and len(scal) == len(flat) and _ann_scalar(scal[flat.index(x)]))):
+                        continue              # bound to tracked template locals
+            if isinstance(par, ast.Call) and top in par.args:
+                r = reads_only(par, top)
+                if r is None:
+                    continue
+                bad.append(f'line {n.lineno}: template object `{ast.unparse(top)[:40]}` handed to `{ast.unparse(par.func)[:40]}`: {r}')
+                continue
+            bad.append(f'line {n.lineno}: template object `{ast.unparse(top)[:40]}` used in `{ast.unparse(par)[:50] if par is not None else "?"}`')
+        return bad, copies, reads
+    for i, nodes in sorted(site_nodes.items()):
+        bad: list[str] = []
+        copies: list[str] = []
+        reads = 0
+        for nd in nodes:
+            b, c, r = judge(nd)
+            bad += b
+            copies += c
+            reads += r
+        if len(set(copies)) > 1:
+            bad.append(f'copies of {sorted(set(copies))} in one statement')
+        if bad:
+            kinds[i], why[i] = 'KdOther', '; '.join(bad)
+        elif copies:
+            kinds[i] = f'(KdCopy "{copies[0]}")'
+        elif reads:
+            kinds[i] = 'KdRead'
+        else:
+            kinds[i] = 'KdLocal'
+    # completeness of the walk: every load of a template name lies in what some site evaluates, or in a logging statement
+    # (KLog: modelled as a no-op, its arguments are only formatted); nested functions / lambdas that mention one are not followed
+    covered = {id(x) for nodes in site_nodes.values() for nd in nodes for x in ast.walk(nd)}
+    for n in ast.walk(c1):
+        if isinstance(n, (ast.FunctionDef, ast.AsyncFunctionDef, ast.Lambda)) and n is not c1 \
+                and any(isinstance(x, ast.Name) and x.id in tenv for x in ast.walk(n)):
+            raise TranslateError(f'collapse_one line {n.lineno}: a nested function / lambda mentions a template object')
+        if isinstance(n, ast.Name) and n.id in tenv and isinstance(n.ctx, ast.Load) and id(n) not in covered:
+            st_ = n
+            while st_ is not None and not isinstance(st_, ast.stmt):
+                st_ = parents.get(id(st_))
+            is_log = isinstance(st_, ast.Expr) and isinstance(st_.value, ast.Call) and isinstance(st_.value.func, ast.Attribute) \
+                and (st_.value.func.attr in LOG_METHODS or ast.unparse(st_.value.func) == 'warnings.warn')
+            if not is_log:
+                raise TranslateError(f'collapse_one line {n.lineno}: template name `{n.id}` is used outside every site of the skeleton')
+    for i, call in callee_sites.items():
+        # statements of an inlined helper: local when no template object goes in, otherwise not classified
+        if any(isinstance(x, ast.Name) and x.id in tenv for x in ast.walk(call)):
+            kinds[i], why[i] = 'KdOther', f'line {call.lineno}: inlined helper `{ast.unparse(call.func)}` receives a template object'
+        else:
+            kinds[i] = 'KdLocal'
+    for k in kinds.values():
+        census['KdCopy' if k.startswith('(KdCopy') else k] += 1
+    return {'kinds': kinds, 'why_other': why, 'census': census, 'kept': sorted(kept),
+            'template_names': {k: ast.unparse(v) for k, v in sorted(tenv.items())}}
 
 
 # ---------------------------------------------------------------------------------------------- visible objects, ID maps
+def _unalias(e: ast.expr, aliases: dict[str, ast.expr], depth: int = 0) -> ast.expr:
+    """`template.brushes` with the single assignment `template = file.vmf` -> `file.vmf.brushes` (attribute chains only)."""
+    if isinstance(e, ast.Attribute):
+        return ast.Attribute(value=_unalias(e.value, aliases, depth), attr=e.attr, ctx=ast.Load())
+    if isinstance(e, ast.Name) and e.id in aliases and depth < 5 and isinstance(aliases[e.id], (ast.Attribute, ast.Name)):
+        return _unalias(aliases[e.id], aliases, depth + 1)
+    return e
+
+
 def _visibility_and_ids(c1: ast.FunctionDef, fk: ast.FunctionDef) -> dict:
     """`for old_brush in file.vmf.brushes` / `for old_ent in file.vmf.entities`: the guard that skips hidden objects, that
     nothing else skips one, and that both copies and the SIDE_LIST branch of fixup_key use the same face-ID map."""
     def loop(attr: str) -> ast.For:
-        found = [n for n in ast.walk(c1) if isinstance(n, ast.For) and ast.unparse(n.iter) == f'file.vmf.{attr}']
+        al = _single_assigned_locals(c1)
+        found = [n for n in ast.walk(c1) if isinstance(n, ast.For)
+                 and ast.unparse(_unalias(_strip_adapters(n.iter, n.target)[0], al)) == f'file.vmf.{attr}']
         if len(found) != 1:
             raise TranslateError(f'collapse_one: expected exactly one loop over file.vmf.{attr}')
         return found[0]
@@ -2291,7 +2649,7 @@ def translate() -> tuple[str, dict]:
             for c in ([n.value] if isinstance(n, ast.Expr) and isinstance(n.value, ast.Call) else []):
                 if isinstance(c.func, ast.Attribute) and c.func.attr == 'localise':
                     loc_sites.append({'recv': ast.unparse(c.func.value), 'args': [ast.unparse(a) for a in c.args],
-                                      'loop': ast.unparse(lp.iter), 'line': c.lineno,
+                                      'loop': ast.unparse(_unalias(_strip_adapters(lp.iter, lp.target)[0], _single_assigned_locals(c1))), 'line': c.lineno,
                                       'unconditional': True})
     all_loc = [n for n in ast.walk(c1) if isinstance(n, ast.Call) and isinstance(n.func, ast.Attribute) and n.func.attr == 'localise']
     side['localise_sites'] = loc_sites
@@ -2552,6 +2910,54 @@ def translate() -> tuple[str, dict]:
     E.lines.append(f'Definition g_from_entity_reads_instance_keyvalues : bool := {"true" if args_as_wanted and init_ok else "false"}.')
     E.lines.append(f'Definition g_from_entity_style_default_prefix : bool := {"true" if style_ok else "false"}.')
 
+    # --- Manifest (round 5): a VMM sub-map is an Instance "collapsed directly at the existing position", names unaltered: the
+    # super().__init__(...) call of Manifest.__init__ matched against Instance.__init__ (positional or keyword, locals inlined)
+    # must pass Vec() / Matrix() without arguments (origin 0, identity) and FixupStyle.NONE, name and file name through.
+    man_cls = next((n for n in itree.body if isinstance(n, ast.ClassDef) and n.name == 'Manifest'), None)
+    man_ok, man_info = False, {'present': man_cls is not None}
+    if man_cls is not None:
+        if [ast.unparse(b_) for b_ in man_cls.bases] != ['Instance']:
+            raise TranslateError('instancing.py: Manifest is not a direct subclass of Instance')
+        m_init = next((f_ for f_ in man_cls.body if isinstance(f_, ast.FunctionDef) and f_.name == '__init__'), None)
+        overridden = sorted(f_.name for f_ in man_cls.body if isinstance(f_, ast.FunctionDef) and f_.name in ('fixup_name', 'fixup_key', 'from_entity'))
+        if m_init is None:
+            raise TranslateError('instancing.py: Manifest.__init__ not found')
+        m_locals = _single_assigned_locals(m_init)
+        stores_: dict[str, int] = {}
+        for n_ in ast.walk(m_init):
+            if isinstance(n_, ast.Name) and isinstance(n_.ctx, (ast.Store, ast.Del)):
+                stores_[n_.id] = stores_.get(n_.id, 0) + 1
+        for st_ in m_init.body:          # `a, b = X, Y` at the top level of __init__, each name bound once
+            if isinstance(st_, ast.Assign) and len(st_.targets) == 1 and isinstance(st_.targets[0], ast.Tuple) and isinstance(st_.value, ast.Tuple) \
+                    and len(st_.targets[0].elts) == len(st_.value.elts):
+                for t_, v_ in zip(st_.targets[0].elts, st_.value.elts):
+                    if isinstance(t_, ast.Name) and stores_.get(t_.id) == 1 and not any(isinstance(x_, ast.Name) for x_ in ast.walk(v_) if x_ is not getattr(v_, 'func', None)):
+                        m_locals[t_.id] = v_
+        sup = [n for n in ast.walk(m_init) if isinstance(n, ast.Call) and isinstance(n.func, ast.Attribute) and n.func.attr == '__init__'
+               and ast.unparse(n.func.value) in ('super()', 'Instance', 'super(Manifest, self)')]
+        if len(sup) != 1:
+            raise TranslateError('Manifest.__init__: exactly one call of Instance.__init__ expected')
+        s_args = list(sup[0].args)[(1 if ast.unparse(sup[0].func.value) == 'Instance' else 0):]
+        m_bound: dict[str, str] = {}
+        for k_, a_ in enumerate(s_args):
+            if isinstance(a_, ast.Starred) or k_ >= len(params):
+                raise TranslateError('Manifest.__init__: arguments of Instance.__init__ not understood')
+            m_bound[params[k_]] = ast.unparse(m_locals.get(a_.id, a_) if isinstance(a_, ast.Name) else a_)
+        for kw_ in sup[0].keywords:
+            if kw_.arg is None or kw_.arg not in params:
+                raise TranslateError('Manifest.__init__: keyword of Instance.__init__ not understood')
+            m_bound[kw_.arg] = ast.unparse(m_locals.get(kw_.value.id, kw_.value) if isinstance(kw_.value, ast.Name) else kw_.value)
+        m_params = [a_.arg for a_ in m_init.args.args[1:]]
+        # pos / orient / fixup_type are not re-assigned afterwards in __init__
+        later = [ast.unparse(t_) for st_ in ast.walk(m_init) if isinstance(st_, (ast.Assign, ast.AugAssign, ast.AnnAssign))
+                 for t_ in (st_.targets if isinstance(st_, ast.Assign) else [st_.target])]
+        man_ok = m_bound.get('pos') == 'Vec()' and m_bound.get('orient') == 'Matrix()' and m_bound.get('fixup_type') == 'FixupStyle.NONE' \
+            and len(m_params) >= 2 and m_bound.get('name') == m_params[0] and m_bound.get('filename') == m_params[1] \
+            and not overridden and not any(t_ in ('self.pos', 'self.orient', 'self.fixup_type', 'self.name', 'self.filename') for t_ in later)
+        man_info.update(arguments=m_bound, overridden=overridden, stores=later)
+    side['manifest'] = man_info
+    E.lines.append(f'Definition g_manifest_identity_placement_names_unaltered : bool := {cb_(man_ok)}.')
+
     # name-typed keyvalues (type.is_ent_name, TARG_DEST_CLASS when not a classname): the value goes through fixup_name, whole
     name_br = [nd for nms, nd in branches if '<is_ent_name>' in nms]
     cls_br = [nd for nms, nd in branches if 'TARG_DEST_CLASS' in nms]
@@ -2604,7 +3010,19 @@ def translate() -> tuple[str, dict]:
 
     # process-global state: which decisions read module-level mutable objects, and what they guard (SM/C17Global.v)
     ps = _process_state(itree)
-    side['process_state'] = {k: v for k, v in ps.items() if k != 'functions'}
+    side['process_state'] = {k: v for k, v in ps.items() if k not in ('functions', 'sites_collapse_one')}
+    # round 5: the kind of every numbered site of collapse_one's skeleton (SM/C17Kinds.v): what is left of `respects`
+    sk_nodes, sk_callee, sk_fn = ps['sites_collapse_one']
+    if sk_fn is None:
+        raise TranslateError('instancing.py: no skeleton of collapse_one')
+    kd = _statement_kinds(sk_fn, sk_nodes, sk_callee, itree, ast.parse(src_text('vmf.py')))
+    side['statement_kinds'] = {'census': kd['census'], 'why_other': {str(k): v for k, v in kd['why_other'].items()},
+                               'kept': [list(x) for x in kd['kept']], 'template_names': kd['template_names'],
+                               'kinds': {str(k): v for k, v in sorted(kd['kinds'].items())}}
+    E.lines.append('Definition g_collapse_statement_kinds : kind_table := [' +
+                   '; '.join(f'({i}%nat, {k})' for i, k in sorted(kd['kinds'].items())) + '].')
+    E.lines.append('Definition g_collapse_template_values_kept : list (string * string * bool)%type := [' +
+                   '; '.join(f'("{c}", "{f}", {cb_(e)})' for c, f, e in kd['kept']) + '].')
     side['process_state']['functions'] = [qn for qn, _ in ps['functions']]
     E.lines.append('Definition g_process_state_functions : list (list N * skel) := [\n  ' +
                    ';\n  '.join(f'({_coq_codes(qn)}, {sk})' for qn, sk in ps['functions']) + '].')
@@ -2644,14 +3062,18 @@ def translate() -> tuple[str, dict]:
         raise TranslateError('vmf.py: class VMF not found')
     vmf_ann = {n.target.id: ast.unparse(n.annotation) for n in vmf_cls.body if isinstance(n, ast.AnnAssign) and isinstance(n.target, ast.Name)}
     # innermost enclosing loop that binds the receiver
+    c1_aliases = _single_assigned_locals(c1)
     def binder(recv: str, line: int) -> str:
+        return ast.unparse(_unalias(ast.parse(binder0(recv, line), mode='eval').body, c1_aliases)) if binder0(recv, line) else ''
+    def binder0(recv: str, line: int) -> str:
         best = ''
         for lp in ast.walk(c1):
             if isinstance(lp, ast.For) and lp.lineno <= line <= (lp.end_lineno or lp.lineno):
-                if isinstance(lp.target, ast.Name) and lp.target.id == recv:
-                    best = ast.unparse(lp.iter)
-                elif isinstance(lp.target, ast.Tuple) and isinstance(lp.iter, ast.Call) and ast.unparse(lp.iter.func) == 'zip':
-                    for t, a in zip(lp.target.elts, lp.iter.args):
+                lp_iter, lp_target = _strip_adapters(lp.iter, lp.target)
+                if isinstance(lp_target, ast.Name) and lp_target.id == recv:
+                    best = ast.unparse(lp_iter)
+                elif isinstance(lp_target, ast.Tuple) and isinstance(lp_iter, ast.Call) and ast.unparse(lp_iter.func) == 'zip':
+                    for t, a in zip(lp_target.elts, lp_iter.args):
                         if isinstance(t, ast.Name) and t.id == recv:
                             best = ast.unparse(a)
         return best
@@ -2685,7 +3107,7 @@ def translate() -> tuple[str, dict]:
                        'fixup_key': ast_digest(fk), 'substitute': sc['digest']}
     head = ['(* GENERATED by translate/c17_formulas.py from src/srctools/{math,vmf,instancing}.py. Do not edit. *)',
             'From Coq Require Import Reals ZArith NArith List String.',
-            'From SV Require Import Rot.C17Base SM.C17Name SM.C17Subst SM.C17Sites SM.C17Frame SM.C17Global SM.C17Cache.',
+            'From SV Require Import Rot.C17Base SM.C17Name SM.C17Subst SM.C17Sites SM.C17Frame SM.C17Global SM.C17Cache SM.C17Kinds.',
             'Import ListNotations.', 'Open Scope string_scope.', 'Open Scope R_scope.', '']
     side['defs'] = sorted(E.defs)
     _LAST.clear()
